@@ -245,8 +245,10 @@ instantiate! {
     ag_with_tracker_i32_0x2 = with_tracker_contract::<i32, 0, 2>();
     ag_without_tracker_i16_2x2 = without_tracker_contract::<i16, 2, 2>();
     ag_try_clone_i16_2x2 = try_clone_contract::<i16, 2, 2, 0>();
+    // NOT registered (measured): did not close in 300 s
     ag_try_clone_i32_3x1 = try_clone_contract::<i32, 3, 1, 0>();
     ag_try_clone_i32_0x2 = try_clone_contract::<i32, 0, 2, 0>();
+    // NOT registered (measured): CBMC exceeds 14 GB
     ag_clone_untracked_i16_2x2 = clone_untracked_contract::<i16, 2, 2, 0>();
     ag_accessors_i16_3x2 = accessors_contract::<i16, 3, 2, 5>();
     ag_accessors_i32_2x2 = accessors_contract::<i32, 2, 2, 0>();
